@@ -22,6 +22,37 @@ const KW_FIELDS: [(&str, bool); 50] = [
 ];
 const KW_VARIANTS: [&str; 27] = ["Default", "Public", "Internal", "Static", "Import", "Return", "In", "Is", "Case", "Class", "Func", "Let", "Var", "Init", "Private", "Where", "While", "Switch", "Guard", "Defer", "Repeat", "Throw", "Catch", "Nil", "_1st", "_2Fast", "_9"];
 
+/// (class, wire name): serde accepts any string as a rename
+const HOSTILE_WIRE_NAMES: [(&str, &str); 9] = [
+    ("digit-leading", "2fa_code"), ("digit-only", "9"), ("empty", ""), ("space", "with space"), ("double-quote", "quo\"te"),
+    ("backslash", "back\\slash"), ("dot", "a.b"), ("digit-leading-dash", "3d-secure"), ("slash", "a/b"),
+];
+
+/// the hostile wire name of a program, if it has one: "field:<class>" / "variant:<class>"
+fn hostile_of(p: &Program) -> Option<String> {
+    let class = |r: &str| HOSTILE_WIRE_NAMES.iter().find(|(_, v)| *v == r).map(|(c, _)| c.to_string());
+    for it in &p.items {
+        match &it.kind {
+            Kind::Struct(fs) => {
+                for f in fs {
+                    if let Some(c) = f.rename.as_deref().and_then(class) {
+                        return Some(format!("field:{c}"));
+                    }
+                }
+            }
+            Kind::Enum { variants, tag, .. } => {
+                for v in variants {
+                    if let Some(c) = v.rename.as_deref().and_then(class) {
+                        return Some(format!("{}-variant:{c}", if tag.is_some() { "tagged" } else { "unit" }));
+                    }
+                }
+            }
+            _ => {}
+        }
+    }
+    None
+}
+
 fn msg_class(m: &str) -> String {
     // drop positions, quoted fragments and the "near" excerpt so that the class is stable
     let m = m.split("(near:").next().unwrap_or(m);
@@ -63,6 +94,14 @@ fn judge(case: &Case<Program>, rep: &mut Report) {
             return;
         }
     }
+    let hostile = hostile_of(case.model);
+    let scope = match &hostile {
+        Some(h) => format!("{lname}|wire-name={h}"),
+        None => lname.to_string(),
+    };
+    if hostile.is_some() {
+        rep.count("programs_with_a_non_identifier_wire_name", 1);
+    }
     for (fname, facts) in &case.facts {
         rep.eval(1);
         rep.count(&format!("files_parsed_{lname}"), 1);
@@ -76,7 +115,7 @@ fn judge(case: &Case<Program>, rep: &mut Report) {
                 }
             }
             ParseStatus::IllFormed(m) => {
-                rep.violate(format!("C10|{lname}|{}", msg_class(m)), format!("{lname} output ill-formed: {m}"), case.detail(json!({"file": fname, "parser_message": m})));
+                rep.violate(format!("C10|{scope}|{}", msg_class(m)), format!("{lname} output ill-formed: {m}"), case.detail(json!({"file": fname, "parser_message": m})));
             }
             ParseStatus::OutsideSubset(m) => {
                 rep.inconclusive(&format!("outside-parser-subset-{lname}"), json!({"message": m, "source": case.source()}));
@@ -86,7 +125,7 @@ fn judge(case: &Case<Program>, rep: &mut Report) {
             if let Some((ok, ty, msg)) = &py.exec {
                 rep.count("python_modules_imported", 1);
                 if !ok && (ty == "SyntaxError" || ty == "IndentationError" || ty == "TabError") {
-                    rep.violate(format!("C10|python|import:{ty}"), format!("python import fails: {ty}: {msg}"), case.detail(json!({"error": msg})));
+                    rep.violate(format!("C10|{scope}|import:{ty}"), format!("python import fails: {ty}: {msg}"), case.detail(json!({"error": msg})));
                 }
             }
         }
@@ -116,12 +155,6 @@ pub fn run(ctx: &Ctx) -> (Spec, Report) {
             for it in prog.items.iter_mut().filter(|i| i.is_annotated()) {
                 match &mut it.kind {
                     Kind::Struct(fs) => {
-                        // (rare: the three backends of the recorded finding stop at this name, hiding the rest of the file)
-                        if rng.chance(1, 20) {
-                            if let Some(f) = fs.last_mut() {
-                                f.rename = Some(rng.pick(&["1st", "2fa-code", "9"]).to_string());
-                            }
-                        }
                         if rng.chance(1, 4) {
                             let (kw, raw) = *rng.pick(&KW_FIELDS);
                             if !fs.iter().any(|f| f.ident == kw) {
@@ -140,13 +173,6 @@ pub fn run(ctx: &Ctx) -> (Spec, Report) {
                         }
                     }
                     Kind::Enum { variants, .. } => {
-                        // wire names that are not identifiers in any target: leading digit, dash, a single digit
-                        if rng.chance(1, 5) {
-                            let k = rng.below(variants.len().max(1));
-                            if let Some(v) = variants.get_mut(k) {
-                                v.rename = Some(rng.pick(&["2fa", "3d-secure", "1", "7_up", "404NotFound"]).to_string());
-                            }
-                        }
                         if rng.chance(1, 4) {
                             let kw = *rng.pick(&KW_VARIANTS);
                             if !variants.iter().any(|v| v.ident == kw) {
@@ -163,6 +189,25 @@ pub fn run(ctx: &Ctx) -> (Spec, Report) {
             }
             if rng.chance(1, 12) {
                 prog.items.push(Item::new("QemptyEnumz", Kind::Enum { variants: vec![], tag: None, content: None }));
+            }
+            // a sixth of the programs: exactly one wire name that is not an identifier in any target language. These
+            // programs report under a signature of their own (`wire-name=<class>`), so that what is recorded about them
+            // cannot hide a defect of ordinary programs behind the same parser message.
+            if rng.chance(1, 6) {
+                let (_, value) = *rng.pick(&HOSTILE_WIRE_NAMES);
+                let structs: Vec<usize> = prog.items.iter().enumerate().filter(|(_, i)| i.is_annotated() && matches!(&i.kind, Kind::Struct(fs) if !fs.is_empty())).map(|(k, _)| k).collect();
+                let enums: Vec<usize> = prog.items.iter().enumerate().filter(|(_, i)| i.is_annotated() && matches!(&i.kind, Kind::Enum { variants, .. } if !variants.is_empty())).map(|(k, _)| k).collect();
+                if rng.coin() && !structs.is_empty() {
+                    if let Kind::Struct(fs) = &mut prog.items[*rng.pick(&structs)].kind {
+                        let k = rng.below(fs.len());
+                        fs[k].rename = Some(value.to_string());
+                    }
+                } else if !enums.is_empty() {
+                    if let Kind::Enum { variants, .. } = &mut prog.items[*rng.pick(&enums)].kind {
+                        let k = rng.below(variants.len());
+                        variants[k].rename = Some(value.to_string());
+                    }
+                }
             }
             let src = prog.render(rng, &RenderOpts { vary: true, prelude: false, strip_typeshare: false });
             let src = if rng.chance(1, 4) { crate::model::relayout(&src, rng.range(1, 4)) } else { src };
